@@ -657,8 +657,9 @@ func (x *Exec) loopWrites(fr *Frame, li *loopInfo) (cells map[*ssa.Alloc]bool, k
 		for _, in := range b.Instrs {
 			if ci, ok := in.(ssa.CallInstruction); ok {
 				if bi, ok := ci.Common().Value.(*ssa.Builtin); ok && bi.Name() == "append" && !ci.Common().IsInvoke() {
-					for k := range x.eng.callFrame(ci).keys {
+					for k, srt := range x.eng.appendKeys(ci) {
 						li.appendOnly[k] = true
+						keys[k] = srt
 					}
 				} else {
 					for k := range x.eng.callFrame(ci).keys {
@@ -1007,6 +1008,7 @@ func (x *Exec) loadField(st *State, obj Term, stt *types.Struct, skey string, i 
 		}
 		return VIface{tag, val}
 	case KSlice:
+		x.notFutureRef(Select(x.heapGet(st, key+"#b", arrOf(SInt)), obj))
 		sv := VSlice{Backing{Heap: true, Ref: Select(x.heapGet(st, key+"#b", arrOf(SInt)), obj)},
 			Select(x.heapGet(st, key+"#o", arrOf(SInt)), obj), Select(x.heapGet(st, key+"#l", arrOf(SInt)), obj), Select(x.heapGet(st, key+"#c", arrOf(SInt)), obj)}
 		x.fact("slice:"+sv.Len.S, And(Ge(sv.Off, IntLit(0)), Ge(sv.Len, IntLit(0)), Le(sv.Len, sv.Cap), Le(sv.Cap, BigLit(pow2(48)))))
@@ -1024,6 +1026,7 @@ func (x *Exec) loadField(st *State, obj Term, stt *types.Struct, skey string, i 
 		}
 		if k := kindOf(ft); k == KRef || k == KMap {
 			x.entryRefFact(t)
+			x.notFutureRef(t)
 		}
 		x.typeInvFact(st, t, ft)
 		return VTerm{t}
@@ -1080,6 +1083,17 @@ func (x *Exec) entryRefFact(t Term) {
 	if len(parts) == 3 && strings.HasSuffix(parts[1], "@0|") {
 		x.fact("pre:"+t.S, Ge(t, IntLit(0)))
 	}
+}
+
+// notFutureRef: a reference read from the heap now cannot denote an object this function allocates
+// later. Objects allocated by the function are the literals -1, -2, ... in allocation order, so the
+// value is at least -(number of allocations so far).
+func (x *Exec) notFutureRef(t Term) {
+	if _, isLit := t.Lit(); isLit || strings.Contains(t.S, "!q") {
+		return
+	}
+	// (objects allocated inside loops are symbolic references below -1000000 and are not constrained)
+	x.fact(fmt.Sprintf("nf:%s@%d", t.S, x.allocCtr), Or(Ge(t, IntLit(-x.allocCtr)), Lt(t, IntLit(-1000000))))
 }
 
 // fact asserts a type-level fact about a term once.
@@ -1619,6 +1633,19 @@ func (x *Exec) slice(fr *Frame, st *State, in *ssa.Slice) Value {
 		}
 		x.oblige(fr, st, "bounds", txt, "array slice bounds: "+txt, in.Pos(), And(Le(IntLit(0), lo), Le(lo, hi), Le(hi, mx), Le(mx, n)), nil)
 		if ba, ok := base.(VAddr); ok && ba.Kind != AOpaque {
+			// The array behind a composite slice literal ([]T{...}) or a variadic argument list is
+			// a heap object that is completely initialised before it is sliced, and is reachable
+			// only through the slice: give it a heap backing so that the slice can be stored in
+			// fields and maps without losing its elements.
+			if al, isAlloc := in.X.(*ssa.Alloc); isAlloc && al.Heap && (al.Comment == "slicelit" || al.Comment == "varargs") {
+				if key, srt, okk := elemsKey(at.Elem()); okk {
+					if arr, isT := x.loadAddr(fr, st, ba, nil, token.NoPos).(VTerm); isT && strings.HasPrefix(string(arr.T.Sort), "(Array") {
+						ref := x.newRef(fr)
+						x.heapSet(st, key, Store(x.heapGet(st, key, srt), ref, arr.T))
+						return VSlice{Backing{Heap: true, Ref: ref}, lo, Sub(hi, lo), Sub(mx, lo)}
+					}
+				}
+			}
 			return VSlice{Backing{Loc: &ba}, lo, Sub(hi, lo), Sub(mx, lo)}
 		}
 		ref := x.vc.Fresh("arrback", SInt)
